@@ -19,5 +19,7 @@ class VariableBoundBoundsMinPropagator(VariableBoundMinPropagator):
         other.add_propagator(self)
         
     def min(self):
+        if len(self.other.domain.range_l) == 0:
+            return None
         return (self.other.domain.range_l[0][0]+self.offset)
     
